@@ -330,6 +330,10 @@ func concurrency(c conc) *fw.Scenario {
 				A, gated, gh = rawpeer.Treaddir(50, 6, 0, 4000), "Readdir", 5
 			case "lopen-f":
 				A, gated, gh = rawpeer.Tlopen(50, 7, 0), "Open", 6
+			case "lock-f":
+				// Lock belongs to no concurrency class of the File contract: a
+				// lock request waiting inside the backend orders nothing at all
+				A, gated, gh = rawpeer.Tlock(50, 2), "Lock", 1
 			}
 			var B refcodec.Msg
 			switch c.B {
@@ -353,6 +357,10 @@ func concurrency(c conc) *fw.Scenario {
 				B = rawpeer.Tstatfs(51, 1)
 			case "flush-idle":
 				B = rawpeer.Tflush(51, 999)
+			case "setattr-f5":
+				B = rawpeer.Tsetattr(51, 5, 1, 0o600, 0)
+			case "renameat-d":
+				B = rawpeer.Trenameat(51, 3, "x", 3, "x2")
 			case "version-otherconn":
 				B = rawpeer.Tgetattr(51, 1)
 			}
@@ -417,6 +425,7 @@ func run(ctx *fw.Ctx, rep *fw.Report) {
 		{"read", "getattr-root", true}, {"read", "read", true}, {"mkdir-e", "walk-d", true}, {"walk-d", "walk-d", true},
 		// read-class calls on ONE path do not order each other (WriteAt, FSync, Readdir and Open are read-class too)
 		{"write", "read", false}, {"write", "getattr-f", false}, {"write", "write-f", false}, {"write", "read", true}, {"fsync", "read", false}, {"fsync", "write-f", false},
+		{"lock-f", "setattr-f5", false}, {"lock-f", "renameat-d", false}, {"lock-f", "renameat-d", true}, {"lock-f", "read", false},
 		{"readdir-e", "walk-e", false}, {"readdir-e", "walk-e", true}, {"lopen-f", "read", false}, {"lopen-f", "getattr-f", true}, {"read", "write-f", false},
 	} {
 		scs = append(scs, concurrency(c))
